@@ -249,7 +249,7 @@ struct Gen {
 				break;
 			}
 			case 6: {  // writes through views
-				static int const kinds[] = {O_VASSIGN_VIEW, O_VASSIGN_VIEW, O_VASSIGN_VIEW, O_VASSIGN_ARRAY, O_VASSIGN_CONV, O_VASSIGN_RANGE, O_VASSIGN_IL, O_VFILL, O_VSWAP, O_EASSIGN, O_EASSIGN_IL, O_ELEM_WRITE};
+				static int const kinds[] = {O_VASSIGN_VIEW, O_VASSIGN_VIEW, O_VASSIGN_VIEW, O_VASSIGN_ARRAY, O_VASSIGN_CONV, O_VASSIGN_RANGE, O_VASSIGN_IL, O_VFILL, O_VSWAP, O_EASSIGN, O_EASSIGN_IL, O_ELEM_WRITE, O_REF_ASSIGN};
 				o.kind = kinds[rng.below(static_cast<int>(sizeof kinds / sizeof *kinds))];
 				o.a    = alive_slot(D);
 				break;
@@ -408,6 +408,14 @@ struct Gen {
 				if(P.allow_overlap && o.kind != O_VSWAP && rng.chance(1, 2)) { o.ov = 1; o.var = 0; }
 				break;
 			}
+			case O_REF_ASSIGN: {
+				o.b = -1;
+				for(int i = 0; i < NSLOT; ++i)
+					if(i != o.a && M.at(D, i).alive && M.at(D, i).same_extents(M.at(D, o.a)) && (o.b < 0 || rng.chance(1, 2))) o.b = i;
+				if(o.b < 0) continue;
+				o.var = rng.below(4);
+				break;
+			}
 			case O_VASSIGN_ARRAY: {
 				MView dv;
 				if(!find_view(D, o.a, -1, nullptr, false, o.ca, dv) || dv.count() == 0) continue;
@@ -444,6 +452,16 @@ struct Gen {
 				break;
 			}
 			case O_COMPARE: {
+				if(rng.chance(1, 3)) {  // two owning arrays, any extents
+					o.var = 1;
+					o.db  = D;
+					o.b   = alive_slot(D);
+					if(o.b < 0 || o.b == o.a) continue;
+					// prefer a partner with the same leading extent (the interesting near-miss)
+					for(int i = 0; i < NSLOT; ++i)
+						if(i != o.a && M.at(D, i).alive && M.at(D, i).count() > 0 && M.at(D, i).n[0] == M.at(D, o.a).n[0] && rng.chance(1, 2)) o.b = i;
+					break;
+				}
 				MView x, y;
 				if(!find_view(D, o.a, -1, nullptr, false, o.ca, x) || x.count() == 0) continue;
 				o.db = any_alive_dim();
